@@ -192,10 +192,18 @@ class SubQueryLineageHolder(ColumnLineageMixin):
         A table can be referred to as alias, table name, or database_name.table_name, create the mapping here.
         For SubQuery, it's only alias then.
         """
-        alias_map = {
+        # aliases written in the query; a table without alias carries its own bare name as alias, see default_alias_map
+        explicit_alias_map = {
             tgt: src
             for src, tgt, attr in self.graph.edges(data=True)
-            if attr.get("type") == EdgeType.HAS_ALIAS and src in table_group
+            if attr.get("type") == EdgeType.HAS_ALIAS
+            and src in table_group
+            and not (isinstance(src, Table) and tgt == src.raw_name)
+        }
+        default_alias_map = {
+            table.raw_name: table
+            for table in table_group
+            if isinstance(table, Table) and table.alias == table.raw_name
         }
         unqualified_map = {
             table.raw_name: table for table in table_group if isinstance(table, Table)
@@ -203,7 +211,11 @@ class SubQueryLineageHolder(ColumnLineageMixin):
         qualified_map = {
             str(table): table for table in table_group if isinstance(table, Table)
         }
-        return alias_map | unqualified_map | qualified_map
+        # later operands win: an alias written in the query hides every table name, and the name of a table without alias
+        # hides the bare name of a table that is only reachable through its alias ("FROM s1.t t2 JOIN t2 x": t2 is s1.t)
+        return (
+            unqualified_map | qualified_map | default_alias_map | explicit_alias_map
+        )
 
     def _get_target_table(self) -> Optional[Union[SubQuery, Table]]:
         table = None
